@@ -67,7 +67,7 @@ structure DataMsg where
   sdh : Id              -- sender's DH key used
   rdh : Id              -- recipient's DH key used
   next : Id             -- sender's next DH key (the `y` field)
-  ctr : Nat
+  ctr : Bytes           -- the 8-byte counter field, as on the wire
   text : Bytes
   extra : Option STlv
 deriving DecidableEq, Repr
@@ -87,7 +87,7 @@ structure Slot where
   myKeyId : Nat := 0
   myDH : Id := 0
   theirDH : Id := 0
-  lastCtr : Nat := 0
+  lastCtr : Bytes := zeros 8     -- slot.theirLastCtr [8]byte
 deriving DecidableEq, Repr
 
 /-- an SMP TLV as `processSMP` sees it -/
@@ -119,7 +119,7 @@ structure Party where
   theirCur : Id := 0
   theirLast : Option Id := none
   slots : List Slot := [{}, {}, {}, {}]
-  myCtr : Nat := 0
+  myCtr : Bytes := zeros 8       -- c.myCounter [8]byte
   fs : FragSt := {}
   smpSt : Nat := 1
   secret : Option Secret := none
@@ -147,6 +147,14 @@ def chEnded := 5
 
 def pred32 (n : Nat) : Nat := (n + 4294967295) % 4294967296
 def succ32 (n : Nat) : Nat := (n + 1) % 4294967296
+
+/-- `incCounter` as written: `for i := 7; i >= 0; i-- { counter[i]++; if counter[i] > 0 { break } }`
+    (`rev` = the array read from index 7 down to 0) -/
+def incRev : Bytes → Bytes
+  | [] => []
+  | b :: r => if b + 1 = 0 then (b + 1) :: incRev r else (b + 1) :: r
+
+def incCounter (c : Bytes) : Bytes := (incRev c.reverse).reverse
 
 def Party.newId (p : Party) : Party × Id :=
   ({ p with fresh := p.fresh + 1 }, 2 * (p.fresh + 1) + p.side)
@@ -202,7 +210,7 @@ def Party.genReveal (p : Party) : R (Party × Msg) :=
     let kid := succ32 p.myKeyId
     let p := { p with ssid := (x, gy), myKeyId := kid, myCur := p.gx.getD 0 }
     let p := p.rotate
-    .ok ({ p with myCtr := p.myCtr + 1 }, .reveal x gy kid)
+    .ok ({ p with myCtr := incCounter p.myCtr }, .reveal x gy kid)
   | _, _ => .panic
 
 /-- `generateSig` (c.gx, c.gy, c.y are set whenever it is reached) -/
@@ -210,7 +218,7 @@ def Party.genSig (p : Party) : Party × Msg :=
   let kid := succ32 p.myKeyId
   let p := { p with myKeyId := kid, myCur := p.gy.getD 0 }
   let p := p.rotate
-  ({ p with myCtr := p.myCtr + 1 }, .sig (p.gy.getD 0) (p.gx.getD 0) kid)
+  ({ p with myCtr := incCounter p.myCtr }, .sig (p.gy.getD 0) (p.gx.getD 0) kid)
 
 /-! ### data layer -/
 
@@ -232,7 +240,7 @@ def Party.calcDataKeys (p : Party) (myKid theirKid : Nat) : Option (Party × Nat
         else if theirKid = pred32 p.theirKeyId ∧ p.theirLast.isSome then p.theirLast else none
       match my, their with
       | some m, some t =>
-        some ({ p with slots := p.slots.set i ⟨true, theirKid, myKid, m, t, 0⟩ }, i)
+        some ({ p with slots := p.slots.set i ⟨true, theirKid, myKid, m, t, zeros 8⟩ }, i)
       | _, _ => none
 
 /-- `generateData(msg, extra)`; the Go code panics when `calcDataKeys` fails -/
@@ -241,7 +249,7 @@ def Party.genData (p : Party) (text : Bytes) (extra : Option STlv) : R (Party ×
   | none => .panic
   | some (p, i) =>
     let s := p.slots.getD i {}
-    .ok ({ p with myCtr := p.myCtr + 1 },
+    .ok ({ p with myCtr := incCounter p.myCtr },
          .data ⟨pred32 p.myKeyId, p.theirKeyId, s.myDH, s.theirDH, p.myCur, p.myCtr, text, extra⟩)
 
 /-! ### SMP -/
@@ -377,7 +385,8 @@ def Party.tlvLoop (p : Party) (o : Out) : List RTlv → R (Party × Out)
     `tk`, `mk` = sender / recipient key ids of the message, `i` = slot -/
 def Party.acceptData (p : Party) (i : Nat) (d : DataMsg) : R (Party × Out) :=
   let s := p.slots.getD i {}
-  if d.ctr ≤ s.lastCtr then .ok (p, { enc := true, err := true }) else
+  -- `bytes.Compare(counter, slot.theirLastCtr[:]) <= 0` → "counter regressed" (8-byte big-endian compare)
+  if !bytesGt d.ctr s.lastCtr then .ok (p, { enc := true, err := true }) else
   let p := { p with slots := p.slots.set i { s with lastCtr := d.ctr } }
   let p := if d.rkid = p.myKeyId then p.rotate else p
   let p :=
